@@ -123,6 +123,8 @@ pub struct Pool2 {
     /// pair (A,B) under test and helper pair (B,C)
     pub pair: String,
     pub pair2: String,
+    /// helper pair (A,C) so that three-hop routes exist
+    pub pair3: String,
     pub lp: String,
     pub lp2: String,
     pub fees_atomics: [u128; 3],
@@ -326,6 +328,14 @@ impl Pool2 {
                 },
                 vec![],
             ),
+        }
+    }
+    /// the pair that serves the hop a -> b
+    pub fn pair_for(&self, a: usize, b: usize) -> &str {
+        match (a.min(b), a.max(b)) {
+            (0, 1) => &self.pair,
+            (1, 2) => &self.pair2,
+            _ => &self.pair3,
         }
     }
     pub fn router_ops(&self, path: &[usize]) -> Vec<SwapOperation> {
@@ -581,6 +591,26 @@ impl Scenario for Pool2 {
             },
         )
         .expect("harness: pair2 info");
+        must_exec(
+            &mut app,
+            OWNER,
+            &factory,
+            &factory::ExecuteMsg::CreatePair {
+                asset_infos: [assets[0].clone(), assets[2].clone()],
+                pool_fees: pool_fee(&["0.001".into(), "0.001".into(), "0.0005".into()]),
+                pair_type: PairType::ConstantProduct,
+                token_factory_lp: false,
+            },
+            vec![],
+        );
+        let p3: PairInfo = query(
+            &app,
+            &factory,
+            &factory::QueryMsg::Pair {
+                asset_infos: [assets[0].clone(), assets[2].clone()],
+            },
+        )
+        .expect("harness: pair3 info");
         let lp = asset_id(&p1.liquidity_token);
         let lp2 = asset_id(&p2.liquidity_token);
         let fees_atomics = [dec_atomics(&cfg.fees[0]), dec_atomics(&cfg.fees[1]), dec_atomics(&cfg.fees[2])];
@@ -592,6 +622,7 @@ impl Scenario for Pool2 {
             router,
             pair: p1.contract_addr,
             pair2: p2.contract_addr,
+            pair3: p3.contract_addr,
             lp,
             lp2,
             fees_atomics,
@@ -603,6 +634,11 @@ impl Scenario for Pool2 {
         let r = tx(&mut s.app, OWNER, msgs, Fault::None);
         if !r.outcome.is_ok() {
             panic!("harness: pair2 liquidity: {}", r.outcome.err_text());
+        }
+        let msgs = s.provide_msgs(&s.pair3.clone(), [0, 2], [4_000_000, 4_000_000], None, None);
+        let r = tx(&mut s.app, OWNER, msgs, Fault::None);
+        if !r.outcome.is_ok() {
+            panic!("harness: pair3 liquidity: {}", r.outcome.err_text());
         }
         let _ = &s.app.block_info();
         s.model = crate::scen::pool2_oracle::Model::init(&s);
